@@ -230,12 +230,14 @@ def f_of(tok):
     return struct.unpack(">d", bytes.fromhex(tok[1:]))[0]
 
 
-def compare_tokens(a, b, rel, absol):
-    """a: implementation tokens, b: model tokens; floats within rel*linemax+absol"""
+def compare_tokens(a, b, rel, absol, scale0=0.0):
+    """a: implementation tokens, b: model tokens; floats within rel*linemax+absol (linemax over the outputs, and over the
+    inputs too — scale0 — for the tags a property lists under tol_scale_inputs: rounding noise of a cancelling result is
+    relative to what went in)"""
     if len(a) != len(b):
         return "token count %d vs %d" % (len(a), len(b))
     fa = [f_of(t) for t in a if t.startswith("x") and len(t) == 17]
-    scale = max([abs(v) for v in fa if math.isfinite(v)] + [0.0])
+    scale = max([abs(v) for v in fa if math.isfinite(v)] + [0.0, scale0])
     for i, (x, y) in enumerate(zip(a, b)):
         if x == y:
             continue
@@ -469,7 +471,10 @@ def main():
                     for (lhs, rhs), ml in zip(cases, mlines):
                         t = lhs.split(" ", 1)[0]
                         rel, ab = tols.get(t, tols.get("*", (0.0, 0.0)))
-                        d = compare_tokens(rhs.split(), ml.split(), rel, ab)
+                        s0 = 0.0
+                        if t in hz.get("tol_scale_inputs", ()):
+                            s0 = max([abs(v) for v in (f_of(tk) for tk in lhs.split() if tk.startswith("x") and len(tk) == 17) if math.isfinite(v)] + [0.0])
+                        d = compare_tokens(rhs.split(), ml.split(), rel, ab, s0)
                         corr["cases"] += 1
                         if d is not None:
                             corr["disagreements"] += 1
